@@ -389,12 +389,24 @@ func catalogueCut(log []centry, cut int, used bool) (string, string) {
 		role = "used"
 		// the restoring node holds an older state of the same log: entries [0, cut) minus the last one, plus a dataset
 		// that the log may delete before the cut
-		old := []centry{{Kind: "create", DS: 0}, {Kind: "create", DS: 3, Two: true}}
+		// ... and it is a replica of ds0's partition with an item in it
+		old := []centry{{Kind: "create", DS: 0}, {Kind: "add", DS: 0, Node: 3}, {Kind: "create", DS: 3, Two: true}}
 		for i, oe := range old {
 			b := oe.bytes(100 + i)
 			if e := w.run(3, func() { c.DM.VerifApply(b) }); e != "" {
 				return "catalogue-setup", e
 			}
+		}
+		if e := w.run(3, func() {
+			d, err := c.DM.Get(cdsID(0))
+			if err != nil {
+				panic(err)
+			}
+			if err := d.VerifPartition(0).Index().Insert(world.ID(0x1234, 0x77), []float32{1, 2}, nil, 0); err != nil {
+				panic(err)
+			}
+		}); e != "" {
+			return "catalogue-setup", e
 		}
 	}
 	if e := w.run(3, func() {
@@ -416,7 +428,29 @@ func catalogueCut(log []centry, cut int, used bool) (string, string) {
 		return "catalogue-list-fails", e
 	}
 	if used {
-		// what the used node held beyond the snapshot must be gone; compare as is
+		// a partition the used node was and still is a replica of (ds0 never deleted in this log, node 3 on its list) keeps
+		// what it holds: installing a catalogue snapshot is no reason to lose a partition's contents (checked before the
+		// listings are compared: it must hold whatever else is wrong with the restored catalogue)
+		deleted, on := false, false
+		for _, e := range log {
+			deleted = deleted || e.Kind == "delete" && e.DS == 0
+		}
+		for _, id := range modelOf(log)[0] {
+			on = on || id == 3
+		}
+		if !deleted && on {
+			items := -1
+			if e := w.run(3, func() {
+				if d, err := c.DM.Get(cdsID(0)); err == nil {
+					items = d.VerifPartition(0).Index().Len()
+				}
+			}); e != "" {
+				return "catalogue-probe-fails", e
+			}
+			if items != 1 {
+				return "partition-contents-lost-by-catalogue-restore:used", fmt.Sprintf("log %v, snapshot cut at %d: node 3 was and is a replica of ds0's partition and held 1 item; after installing the catalogue snapshot it holds %d", log, cut, items)
+			}
+		}
 	}
 	if la != lc {
 		// what kind of difference: a dataset missing on the restoring node, one it already had and did not refresh,
@@ -448,6 +482,11 @@ func catalogueCut(log []centry, cut int, used bool) (string, string) {
 		if k, d := w.againstModel(c, "snapshot+suffix", log, lc); k != "" {
 			return k, fmt.Sprintf("snapshot cut at %d: %s", cut, d)
 		}
+		return "", ""
+	}
+	// a used node that ends up listing what the log says must also route and serve as the log says
+	if k, d := w.againstModel(c, "snapshot+suffix on a used node", log, lc); k != "" {
+		return k, fmt.Sprintf("snapshot cut at %d: %s", cut, d)
 	}
 	return "", ""
 }
